@@ -54,7 +54,13 @@ type scriptPubSub struct {
 	subscribed  []string
 	published   []string
 	peersAlways []peer.ID // when set, Peers() answers immediately with this (oneonone)
+	hold        chan struct{} // when set, Subscribe waits for it to be closed
+	held        chan struct{} // the channel that was installed as hold (kept for closing)
+	waiting     int           // callers currently inside a held Subscribe
+	all         map[string][]*scriptSub
 }
+
+func (p *scriptPubSub) holdChan() chan struct{} { return p.held }
 
 func newScriptPubSub() *scriptPubSub {
 	return &scriptPubSub{snapshots: make(chan []peer.ID), subs: map[string]*scriptSub{}}
@@ -83,9 +89,22 @@ func (p *scriptPubSub) Publish(_ context.Context, topic string, data []byte) err
 }
 func (p *scriptPubSub) Subscribe(_ context.Context, topic string, _ ...options.PubSubSubscribeOption) (coreiface.PubSubSubscription, error) {
 	p.mu.Lock()
+	hold := p.hold
+	if hold != nil {
+		p.waiting++
+	}
+	p.mu.Unlock()
+	if hold != nil {
+		<-hold
+	}
+	p.mu.Lock()
 	defer p.mu.Unlock()
 	s := &scriptSub{ch: make(chan scriptMsg, 16)}
 	p.subs[topic] = s
+	if p.all == nil {
+		p.all = map[string][]*scriptSub{}
+	}
+	p.all[topic] = append(p.all[topic], s)
 	p.subscribed = append(p.subscribed, topic)
 	return s, nil
 }
@@ -462,6 +481,58 @@ func runChannelIDs() (string, []explore.Violation) {
 	return fmt.Sprintf("pairs=%d", len(seen)), vs
 }
 
+// runOneOnOneConcurrentConnect: two overlapping Connect calls for the same peer (as when two stores of one
+// instance see the peer join at the same moment) must leave one subscription, so that a payload sent
+// afterwards is delivered once.
+func runOneOnOneConcurrentConnect() (string, []explore.Violation) {
+	self, p1 := sim.DeterministicPeerID("self"), sim.DeterministicPeerID("p1")
+	ps := newScriptPubSub()
+	ps.peersAlways = []peer.ID{p1}
+	ps.hold = make(chan struct{})
+	ps.held = ps.hold
+	api := &scriptAPI{self: self, ps: ps}
+	em := &recEmitter{}
+	ctx, cancel := context.WithCancel(context.Background())
+	defer cancel()
+	ch, err := oneonone.NewChannelFactory(api)(ctx, em, nil)
+	if err != nil {
+		return "harness", nil
+	}
+	var wg sync.WaitGroup
+	for i := 0; i < 2; i++ {
+		wg.Add(1)
+		go func() { defer wg.Done(); _ = ch.Connect(ctx, p1) }()
+	}
+	_ = sim.Quiesce() // both callers are now either inside Subscribe or waiting for the channel's lock
+	ps.mu.Lock()
+	inside := ps.waiting
+	ps.hold = nil
+	ps.mu.Unlock()
+	close(ps.holdChan())
+	wg.Wait()
+	// a real pubsub hands a topic message to every subscription of that topic
+	ps.mu.Lock()
+	nsubs := 0
+	for _, l := range ps.all {
+		for _, s := range l {
+			s.ch <- scriptMsg{from: p1, data: []byte("payload")}
+			nsubs++
+		}
+	}
+	ps.mu.Unlock()
+	time.Sleep(20 * time.Millisecond)
+	_ = sim.Quiesce()
+	em.mu.Lock()
+	n := len(em.evts)
+	em.mu.Unlock()
+	_ = ch.Close()
+	if n != 1 {
+		return fmt.Sprintf("deliveries=%d", n), []explore.Violation{{Signature: "oneonone-concurrent-connect-duplicates-delivery",
+			Detail: fmt.Sprintf("two overlapping Connect calls (%d inside Subscribe at the same time) left %d subscriptions; one payload was delivered %d times", inside, nsubs, n)}}
+	}
+	return fmt.Sprintf("deliveries=1 subscriptions=%d", nsubs), nil
+}
+
 // ---- directchannel over the in-memory host ----
 
 func runDirectChannelSizes() (string, []explore.Violation) {
@@ -549,7 +620,7 @@ func runDirectChannelInterleavings() (string, []explore.Violation) {
 func init() {
 	explore.Register(&explore.CheckDef{
 		ID: "C20", Level: "exploration",
-		Rule: "pubsubcoreapi over a scripted PubSub API whose poll loop is stepped one membership snapshot at a time: every sequence of <= 3 (quick) / <= 4 (thorough) snapshots over 3 remote peers, each snapshot a duplicate-free set in every list order (16 ordered lists): joins and leaves reported must be exactly the set differences of consecutive snapshots, once each, and Peers() the last snapshot; every message sequence of length <= 3 over sender {self, p1, p2} x payload {empty, 1 byte, 64 KiB} must be delivered as exactly the multiset of its non-self payloads, byte-identical (order is not part of the statement and is not judged) (topic adapter and one-on-one channel monitor, the latter attributed to the channel's remote peer). oneonone: channel names symmetric, distinct and used for sending, for all 20 ordered pairs of 5 peer ids. directchannel over an in-memory host: 10 payload sizes from 0 to the frame limit +1 (exact bytes, exact sender, once; oversize refused and the next frame still delivered) and all 6 interleavings of two senders x two frames. pubsubraw over three real in-memory libp2p hosts with gossipsub: every message sequence of length <= 2 over 3 senders x 2 sizes, receipt-based waiting (bounded input enumeration without schedule control; a delivery the library does not make in time ends the case as inconclusive, not as a violation). Non-trivial = sequences in which membership changes / a self-sent message occurs.",
+		Rule: "pubsubcoreapi over a scripted PubSub API whose poll loop is stepped one membership snapshot at a time: every sequence of <= 3 (quick) / <= 4 (thorough) snapshots over 3 remote peers, each snapshot a duplicate-free set in every list order (16 ordered lists): joins and leaves reported must be exactly the set differences of consecutive snapshots, once each, and Peers() the last snapshot; every message sequence of length <= 3 over sender {self, p1, p2} x payload {empty, 1 byte, 64 KiB} must be delivered as exactly the multiset of its non-self payloads, byte-identical (order is not part of the statement and is not judged) (topic adapter and one-on-one channel monitor, the latter attributed to the channel's remote peer). oneonone: channel names symmetric, distinct and used for sending, for all 20 ordered pairs of 5 peer ids; two overlapping Connect calls for one peer (the subscription call held open) must leave one subscription and deliver a later payload once. directchannel over an in-memory host: 10 payload sizes from 0 to the frame limit +1 (exact bytes, exact sender, once; oversize refused and the next frame still delivered) and all 6 interleavings of two senders x two frames. pubsubraw over three real in-memory libp2p hosts with gossipsub: every message sequence of length <= 2 over 3 senders x 2 sizes, receipt-based waiting (bounded input enumeration without schedule control; a delivery the library does not make in time ends the case as inconclusive, not as a violation). Non-trivial = sequences in which membership changes / a self-sent message occurs.",
 		Units: func(tier string) []explore.Unit {
 			u := explore.ChunkUnits("membership-"+tier, 16)
 			u = append(u, explore.ChunkUnits("topicmsgs", 4)...)
@@ -618,6 +689,7 @@ func init() {
 				}
 			case prefix == "misc":
 				cases = append(cases, explore.Case{ID: "oneonone channel names", Nontrivial: true, Run: runChannelIDs})
+				cases = append(cases, explore.Case{ID: "oneonone concurrent connect", Nontrivial: true, Run: runOneOnOneConcurrentConnect})
 				cases = append(cases, explore.Case{ID: "directchannel sizes", Nontrivial: true, Run: runDirectChannelSizes})
 				cases = append(cases, explore.Case{ID: "directchannel interleavings", Nontrivial: true, Run: runDirectChannelInterleavings})
 				cases = append(cases, explore.Case{ID: "pubsubraw over in-memory libp2p hosts", Nontrivial: true, Run: runPubSubRaw})
